@@ -13,6 +13,11 @@ def run_session(files: dict, args=(), env: dict | None = None, stdin: bytes = b"
                 timeout: int = 120, keep: bool = False, pre_existing_dir: pathlib.Path | None = None,
                 cwd_sub: str | None = None) -> dict:
     d = pre_existing_dir or common.mkscratch("s")
+    top = d
+    if cwd_sub:
+        # the project lives in <scratch>/proj, the session is started from its sibling <scratch>/<cwd_sub>
+        d = top / "proj"
+        d.mkdir(parents=True, exist_ok=True)
     try:
         if pyproject is not None:
             (d / "pyproject.toml").write_text(pyproject)
@@ -28,7 +33,7 @@ def run_session(files: dict, args=(), env: dict | None = None, stdin: bytes = b"
             cwd = d
             if cwd_sub:
                 # the session is started from another directory; the project is given as an argument
-                cwd = d / cwd_sub
+                cwd = top / cwd_sub
                 cwd.mkdir(parents=True, exist_ok=True)
                 cmd = cmd + [str(d)]
             r = subprocess.run(cmd, cwd=cwd, env=e, capture_output=True, input=stdin, timeout=timeout)
@@ -65,4 +70,4 @@ def run_session(files: dict, args=(), env: dict | None = None, stdin: bytes = b"
                 "dir": str(d) if keep else None}
     finally:
         if not keep and pre_existing_dir is None:
-            common.rmtree(d)
+            common.rmtree(top)
